@@ -239,6 +239,26 @@ def run(ctx):
             calls_ = {o.call.name for o in origins(fc, op) if o.kind == "call"}
             if any("Enumerate" in c and c.endswith("::next") for c in calls_):
                 okai = True
+        # ... of the slice itself, for every Address built here, and every turn of that loop adds one pool: the index of a server's Address is then its
+        # position in databases[shard] (round 6: a filtered enumerate kept the original positions while the pools were pushed densely - lookups off by one)
+        per = []
+        for b_, blk, st in F.aggregates("pgcat::config::Address"):
+            if b_ is not fc:
+                continue
+            op = st["rv"]["ops"][st["rv"]["fields"].index("address_index")]
+            nx = [o.call for o in origins(fc, op) if o.kind == "call" and o.call.name.endswith("::next")]
+            direct = bool(nx) and all(re.fullmatch(r"core::iter::adapters::enumerate::Enumerate<core::slice::iter::Iter<'_, pgcat::config::(Mirror)?ServerConfig>>", (c.targs or [""])[0]) for c in nx)
+            per.append((blk, direct, [(c.targs or ["?"])[0] for c in nx]))
+            if direct and nx and "MirrorServerConfig" not in nx[0].targs[0]:
+                # the servers loop: from its `next` every way back to it passes a push of a bb8 pool into the per-shard vector (error exits leave from_config)
+                hd = nx[0].block
+                pushes = [c.block for c in fc.calls("re:^alloc::vec::Vec.*::push$") if any("bb8::api::Pool<" in t for t in c.targs)]
+                wloop = fc.uncrossed_path([nx[0].target], [hd], blocks=pushes) if nx[0].target is not None else [0]
+                rs.check(bool(pushes) and wloop is None, "one-pool-per-server", "every turn of the servers loop pushes one bb8 pool (positions in databases[shard] = enumerate index)",
+                         "a turn of the servers loop can end without pushing a pool: the pools of later servers sit at lower positions than their address_index", "", wloop and fc.describe_path(wloop))
+        bad = [p_ for p_ in per if not p_[1]]
+        rs.check(bool(per) and not bad, "address_index=position-in-the-slice", "every Address.address_index is the enumerate() index of the configured slice itself (%d sites)" % len(per),
+                 "Address.address_index comes from %s: an iterator that skips or reorders entries while keeping their original index makes databases[shard][address_index] a different server's pool (or out of bounds)" % [p_[2] for p_ in bad])
         V["structural:address_index-is-enumerate-index"] = okai
         rs.check(okai, "address_index=enumerate", "Address.address_index is an enumerate() index (of shard.servers / mirrors)", "Address.address_index no longer derives from enumerate()")
         # Address.shard derives from parse of the shard key
